@@ -1,6 +1,6 @@
 """C05 — history is hash-chained and tamper-evident."""
 from ..prims import *
-from ..guards import check_strength
+from ..guards import check_strength, check_zip_lengths
 from ..guards import find_guard
 from ..baselines import baseline
 
@@ -124,6 +124,7 @@ def run(ctx):
 
     # ---- R3
     seen = {}
+    _zip_done = set()
     for (path, enum, variant, ta, tb) in GUARDS:
         f = prog.fn(path)
         st, detail = find_guard(prog, f, enum, variant, ta, tb)
@@ -133,6 +134,7 @@ def run(ctx):
         rep.check(st == "ok", "C05.R3", key, detail, "%s — %s" % (st, detail), site=f.loc())
         if st == "ok":
             check_strength(rep, "C05.R3", key, "C05", prog, f, enum, variant, ta, tb)
+        check_zip_lengths(rep, "C05.R3", prog, f, _zip_done)
     # the verification functions are actually on the entry paths
     must_reach = {
         "replay": [PS + "validate_replay_base", PS + "restore_replay_base", PS + "advance_replay_state", PS + "replay_artifacts_for_entry"],
